@@ -18,10 +18,10 @@ import (
 
 // HistRecipe builds a block from a histogram shape and an arrangement.
 type HistRecipe struct {
-	Alpha   int    `json:"alpha"`   // alphabet size 1..256
-	Shape   int    `json:"shape"`   // 0 flat, 1 geometric, 2 rare+dominant, 3 single, 4 two symbols, 5 zipf
-	K       int    `json:"k"`       // rare symbols (shape 2)
-	M       int    `json:"m"`       // dominant symbols (shape 2)
+	Alpha   int    `json:"alpha"` // alphabet size 1..256
+	Shape   int    `json:"shape"` // 0 flat, 1 geometric, 2 rare+dominant, 3 single, 4 two symbols, 5 zipf
+	K       int    `json:"k"`     // rare symbols (shape 2)
+	M       int    `json:"m"`     // dominant symbols (shape 2)
 	Len     int    `json:"len"`
 	Arrange int    `json:"arrange"` // 0 shuffled, 1 sorted, 2 clustered
 	Seed    uint64 `json:"seed"`
